@@ -14,7 +14,9 @@ DEMO_REL=$(grep -oE 'crates/[A-Za-z0-9_/.-]+\.rs' $D/demo_path.txt | head -1)
 mkdir -p $(dirname $WT/$DEMO_REL) && cp $D/demo.rs $WT/$DEMO_REL
 CRATE=$(echo $DEMO_REL | cut -d/ -f2); case $CRATE in revm) PKG=revm;; *) PKG=revm-$CRATE;; esac
 TESTNAME=$(basename $DEMO_REL .rs)
-run_demo() { nice -n 5 cargo test --offline -p $PKG --test $TESTNAME >> $LOG 2>&1; }
+# demos of feature-gated code name their features in demo_path.txt ("--features a,b")
+FEAT=$(grep -oE -- '--features[= ][A-Za-z0-9_,-]+' $D/demo_path.txt | head -1)
+run_demo() { nice -n 5 cargo test --offline -p $PKG $FEAT --test $TESTNAME >> $LOG 2>&1; }
 echo "== demo without patch" >> $LOG; run_demo; A=$?
 git apply $D/patch.diff >> $LOG 2>&1 || { echo "PATCH-DOES-NOT-APPLY $D"; exit 2; }
 echo "== demo with patch" >> $LOG; run_demo; B=$?
